@@ -189,10 +189,10 @@ func ruleC05LockCtx(cx *Ctx) {
 		return
 	}
 	exempt := map[string]string{
-		"newPolicy":             "object not yet published",
-		"deque.NewLinked":       "object not yet published",
+		"newPolicy":              "object not yet published",
+		"deque.NewLinked":        "object not yet published",
 		"expiration.NewVariable": "object not yet published (sentinel links)",
-		"newSketch":             "object not yet published",
+		"newSketch":              "object not yet published",
 	}
 	protected := map[string]bool{}
 	for _, tf := range [][2]string{{"", "policy"}, {"internal/deque", "Linked"}, {"internal/expiration", "Variable"}, {"", "sketch"}} {
